@@ -226,7 +226,15 @@ func (obj *Flavor) inheritFlavor(cf *Flavor) {
 			obj.methods[k] = m
 		}
 		for _, ic := range im.Combinations {
-			if !m.HasMethodFromClass(ic.From.Name()) {
+			if m.HasMethodFromClass(ic.From.Name()) {
+				continue
+			}
+			// The vanilla-flavor is last in the precedence list so keep
+			// a combination inherited from it after all others.
+			if last := len(m.Combinations) - 1; 0 <= last && m.Combinations[last].From == &vanilla {
+				m.Combinations = append(m.Combinations, m.Combinations[last])
+				m.Combinations[last] = ic
+			} else {
 				m.Combinations = append(m.Combinations, ic)
 			}
 		}
